@@ -48,8 +48,8 @@ CSIM_NOTE = ("Sampling of (stream, schedule) pairs. Trusts: clang-14's ASan+UBSa
 
 CHECKS.append(check(
     "C03", "csim", "exploration",
-    "C generated at check time by the working tree's `wuffs gen std/...` is compiled with ASan+UBSan and driven, one call per round trip, by a simulated caller: seeded streams (independent encoders or test/data, 80% with 1-3 stream faults) delivered under seeded schedules (source split down to 1 byte, late EOF, spurious empty deliveries, source compacted or not, destination grants down to 1 byte, partial drains, compaction with history retention, relocation, work buffer at min or max, object memory pre-filled with zeroes/0xFF/noise). Oracles per call: no sanitizer report or crash; source bytes and meta untouched; destination bytes below the old wi untouched; indexes monotone and in range; status is ok/note/suspension/error and never an internal error; no short read on a closed fully supplied source, no short write with nothing written into an empty destination of at least 64 KiB, no short workbuf when the buffer meets workbuf_len().min_incl.",
-    CSIM_NOTE + " The 'never allocates or frees' clause is not yet monitored.",
+    "C generated at check time by the working tree's `wuffs gen std/...` is compiled with ASan+UBSan and driven, one call per round trip, by a simulated caller: seeded streams (independent encoders or test/data, 80% with 1-3 stream faults) delivered under seeded schedules (source split down to 1 byte, late EOF, spurious empty deliveries, source compacted or not, destination grants down to 1 byte, partial drains, compaction with history retention, relocation, work buffer at min or max, object memory pre-filled with zeroes/0xFF/noise). Oracles per call: no sanitizer report or crash; source bytes and meta untouched; destination bytes below the old wi untouched; indexes monotone and in range; status is ok/note/suspension/error and never an internal error; no short read on a closed fully supplied source, no short write with nothing written into an empty destination of at least 64 KiB, no short workbuf when the buffer meets workbuf_len().min_incl; no allocator call during the call (ASan builds).",
+    CSIM_NOTE + " 'Never allocates or frees': on the ASan builds the allocator's malloc/free hooks count every allocator call made during each transform_io call (a malloc+free pair inside one call counts); the -O2 builds cannot tell and say so. Self-tested by a deliberate allocation inside the counted window (a first self-test was silently optimised away by clang: the pointer has to be volatile).",
     "deterministic simulation: I/O-delivery schedule simulator around generated C under sanitizers + stream corruption faults",
     "DESIGN.md section 3 C, section 5 C03, Appendix B"))
 CHECKS.append(check(
